@@ -1136,6 +1136,11 @@ def bi_list(eng, st, pos, kw):
     def mk(s, seq):
         v0 = seq.get(s, z3.Const(fresh_name("i"), I))
         kind = value_kind(v0)
+        if kind is None and isinstance(v0, VTuple) and v0.items and all(value_kind(x) for x in v0.items):
+            # list(<sequence of fixed-arity tuples of scalars>), e.g. list(d.items()): a snapshot kept as parallel arrays
+            s2, rec = tlist_from_seq(eng, s, seq)
+            oid = new_oid()
+            return [("ok", s2.setobj(oid, rec), VObj(oid, "tlist", "list"))]
         if kind is None:
             raise Unsupported("list() of non-scalar sequence")
         s, l = alloc_list(s, kind, length=z3.IntVal(0))
@@ -1189,6 +1194,14 @@ def bi_dict(eng, st, pos, kw):
         return [dict_from_pairs(eng, st, [])]
     if len(pos) == 1 and not kw and isinstance(pos[0], C.VGen):
         return C.dict_from_gen(eng, st, pos[0])
+    if len(pos) == 1 and not kw and isinstance(pos[0], VObj) and pos[0].kind == "dict" and not st.objs[pos[0].oid].get("pure"):
+        # dict(d): a NEW dictionary with the same keys and values (what d.copy() returns)
+        return container_method(eng, st, pos[0], "copy", [], {})
+    if len(pos) == 1 and not kw and isinstance(pos[0], VObj) and pos[0].kind == "tlist" and len(st.objs[pos[0].oid]["kinds"]) == 2:
+        # dict(<list of (key, value) pairs>): last-wins map over the positions of the list, as for a generator of pairs
+        seq = to_seq(eng, st, pos[0])
+        i = z3.Const(fresh_name("di"), I)
+        return C.dict_from_gen(eng, st, C.VGen(seq, i, None, seq.get(st, i)))
     raise Unsupported("dict(...) with arguments")
 
 
